@@ -234,6 +234,19 @@ func oracle(t []string, out string) *hx.Violation {
 			}
 		}
 	case "cfg":
+		// whatever the net: an entry whose address decodes must come out of SetupConfig with its program hash
+		// (an unresolved entry is skipped by the check: the address is silently not frozen), from whatever height
+		if out != "empty" && !strings.HasPrefix(out, "oracle-mismatch") {
+			for _, e := range strings.Split(out, ",") {
+				p := strings.Split(e, ":")
+				if len(p) == 3 && p[2] == "nil" {
+					if ph, err := common.Uint168FromAddress(p[0]); err == nil && ph != nil {
+						return &hx.Violation{Kind: "frozen-entry-not-resolved",
+							Detail: "configured frozen address " + p[0] + " (start height " + p[1] + ") has no program hash after SetupConfig: it is not frozen"}
+					}
+				}
+			}
+		}
 		name := strings.ToLower(runes(t[1]))
 		if name == "" || name == "mainnet" || name == "main" {
 			if out != fmt.Sprintf("%s:%d:%s", coordAddr, coordStart, coordHash) {
